@@ -74,3 +74,16 @@ Theorem C18_generated_limit_reaches_tiling_preparers : forall k : wkind,
   g_read_kind (entry_class_of k) = Some (reader_of k, match k with WChunked | WTensor => true | _ => false end).
 Proof. exact read_routing. Qed.
 Print Assumptions C18_generated_limit_reaches_tiling_preparers.
+
+(* Snapshot.read_object, as wired in the source now (regenerated by translator/gen_dispatch.py): the memory budget is the
+   buffer limit handed to prepare_read; a budgeted read is NOT merged back by read batching (whatever the batching knob),
+   an unbudgeted one is batched exactly when batching is enabled; the read scheduler gets the budget itself (any b > 0),
+   the cap when none is given. *)
+Theorem C18_generated_read_object_wiring :
+  g_ro_limit_is_budget = true /\
+  (forall d, g_ro_batches d true = false) /\
+  (forall d, g_ro_batches d false = negb d) /\
+  (forall b cap, 0 < b -> g_ro_exec_budget (Some b) cap = b) /\
+  (forall cap, g_ro_exec_budget None cap = cap).
+Proof. exact read_object_wiring. Qed.
+Print Assumptions C18_generated_read_object_wiring.
